@@ -15,6 +15,43 @@ impl AVec {
     fn push(&mut self, x: Value)
         ensures final(self)@ == old(self)@.push(x), final(self).cap() >= old(self).cap(),
     { unimplemented!() }
+    // std: Vec::pop never changes the capacity
+    #[verifier::external_body]
+    fn pop(&mut self) -> (r: Option<Value>)
+        ensures
+            old(self)@.len() > 0 ==> r == Some(old(self)@.last()) && final(self)@ == old(self)@.drop_last(),
+            old(self)@.len() == 0 ==> r.is_none() && final(self)@ == old(self)@,
+            final(self).cap() == old(self).cap(),
+    { unimplemented!() }
+    #[verifier::external_body]
+    fn len(&self) -> (r: usize)
+        ensures r == self@.len(),
+    { unimplemented!() }
+    #[verifier::external_body]
+    fn is_empty(&self) -> (r: bool)
+        ensures r == (self@.len() == 0),
+    { unimplemented!() }
+    // std: shrink_to / shrink_to_fit / reserve / truncate / clear keep the elements (truncate/clear: a prefix); only the capacity may move
+    #[verifier::external_body]
+    fn shrink_to(&mut self, min_capacity: usize)
+        ensures final(self)@ == old(self)@, final(self).cap() <= old(self).cap(), final(self).cap() >= final(self)@.len(),
+    { unimplemented!() }
+    #[verifier::external_body]
+    fn shrink_to_fit(&mut self)
+        ensures final(self)@ == old(self)@, final(self).cap() <= old(self).cap(), final(self).cap() >= final(self)@.len(),
+    { unimplemented!() }
+    #[verifier::external_body]
+    fn reserve(&mut self, additional: usize)
+        ensures final(self)@ == old(self)@, final(self).cap() >= old(self).cap(),
+    { unimplemented!() }
+    #[verifier::external_body]
+    fn truncate(&mut self, len: usize)
+        ensures final(self)@ == (if len < old(self)@.len() { old(self)@.subrange(0, len as int) } else { old(self)@ }), final(self).cap() == old(self).cap(),
+    { unimplemented!() }
+    #[verifier::external_body]
+    fn clear(&mut self)
+        ensures final(self)@ == Seq::<Value>::empty(), final(self).cap() == old(self).cap(),
+    { unimplemented!() }
 }
 impl Value {
     // real: From<AbraInt> for Value (R3 typed; round trip proved by Kani U4.enc.int_roundtrip)
